@@ -1,28 +1,19 @@
 package rules
 
 import (
-	"fmt"
 	"go/ast"
-	"go/token"
-	"go/types"
-	"sort"
-	"strings"
 
 	"lachk/core"
 )
 
-var _ = fmt.Sprint
-var _ ast.Node
-var _ token.Pos
-var _ types.Object
-var _ = sort.Strings
-var _ = strings.TrimSpace
-
 // c27NoLeakOnError: a failed open must not count as a reference: no path increments the counter and
-// then returns without a store.
+// then returns without a store. Paths are searched per outcome of the cache lookup (see
+// c27HitScenarios), so a count made on the hit branch is not combined with the failure exit of the
+// miss branch.
 func c27NoLeakOnError(c *core.Ctx) {
 	c.Clause("C27.open.error", func() {
 		open := c.Fn("kvdb/cachedproducer.openDB")
+		scenarios := c27HitScenarios(open, cpState+".opened")
 		n := 0
 		for _, a := range assignments(open) {
 			ix, ok := ast.Unparen(a.LHS).(*ast.IndexExpr)
@@ -30,10 +21,21 @@ func c27NoLeakOnError(c *core.Ctx) {
 				continue
 			}
 			n++
-			path, found := core.PathQuery{F: open, From: a.Pt, FromAfter: true, Target: func(pt core.Point) bool {
-				r, isRet := pt.Node().(*ast.ReturnStmt)
-				return isRet && len(r.Results) == 2 && core.IsNil(open.Info(), r.Results[0])
-			}}.Find()
+			var path []core.Point
+			found := false
+			for _, infeasible := range scenarios {
+				// the update must itself be reachable in the scenario
+				if _, reach := (core.PathQuery{F: open, From: open.Entry(), Target: core.PointSet(a.Pt), AvoidEdge: infeasible}).Find(); !reach && a.Pt != open.Entry() {
+					continue
+				}
+				p, f := core.PathQuery{F: open, From: a.Pt, FromAfter: true, AvoidEdge: infeasible, Target: func(pt core.Point) bool {
+					r, isRet := pt.Node().(*ast.ReturnStmt)
+					return isRet && len(r.Results) == 2 && core.IsNil(open.Info(), r.Results[0])
+				}}.Find()
+				if f {
+					path, found = p, true
+				}
+			}
 			c.Check(!found, "a failed open is not counted", "T7 Pairing", a.Stmt.Pos(), "no path from this counter update reaches a return without a store",
 				"the reference counter is increased on a path that then fails to open the database: the leaked reference keeps the underlying database open after the last Close and hides one surplus Close ("+open.DescribePath(path)+")")
 		}
